@@ -272,7 +272,7 @@ type c14Case struct {
 	MSeed    int64   `json:"mseed"`
 }
 
-var c14Mutations = []string{"none", "id", "version", "capacity", "pushAmt", "auto",
+var c14Mutations = []string{"none", "id", "version", "versionUnknown", "capacity", "pushAmt", "auto",
 	"unannounced", "zeroConf", "bidNonce", "signKey", "lease", "state", "recipient",
 	"swapSigs", "junkOfferSig", "junkOrderSig"}
 
@@ -320,6 +320,9 @@ func (e *c14Env) mutate(t *sidecar.Ticket, m string, rng *rand.Rand) {
 		t.ID[rng.Intn(8)] ^= byte(1 << uint(rng.Intn(8)))
 	case "version":
 		t.Version ^= 1
+	case "versionUnknown":
+		// a version byte no current client writes (DeserializeTicket accepts any)
+		t.Version = sidecar.Version(2 + rng.Intn(254))
 	case "capacity":
 		if rng.Intn(2) == 0 {
 			t.Offer.Capacity += btcutil.Amount(100000 * (1 + rng.Intn(9)))
@@ -377,7 +380,7 @@ func (e *c14Env) mutate(t *sidecar.Ticket, m string, rng *rand.Rand) {
 
 func c14Covered(kind, m string, version uint8) bool {
 	switch m {
-	case "id", "version", "capacity", "pushAmt", "signKey":
+	case "id", "version", "versionUnknown", "capacity", "pushAmt", "signKey":
 		return true
 	case "auto", "junkOfferSig":
 		return kind == "offer"
@@ -415,6 +418,7 @@ func (e *c14Env) flip(r *Run, c c14Case) {
 	if len(r.Samples) < 3 {
 		r.Sample(map[string]interface{}{"case": c, "ticket": tok, "verifyoffer": vOffer, "verifyorder": vOrder})
 	}
+	e.acceptorFlow(r, c)
 	st := sidecar.State(c.Base.State)
 	bad := func(what, kind string) {
 		r.Count("oracle/violation")
@@ -436,6 +440,109 @@ func (e *c14Env) flip(r *Run, c c14Case) {
 		if c14Covered("order", c.Mutation, v) && vOrder == "ok" {
 			bad("order signature still verifies after changing "+c.Mutation, "order")
 		}
+	}
+}
+
+// c14MapStore is a sidecar.Store that really stores tickets, keyed like the
+// client database by (ID, offer signing key).
+type c14MapStore struct {
+	m map[string]*sidecar.Ticket
+}
+
+func c14StoreKey(id [8]byte, pk *btcec.PublicKey) string {
+	k := string(id[:])
+	if pk != nil {
+		k += string(pk.SerializeCompressed())
+	}
+	return k
+}
+func (s *c14MapStore) AddSidecar(t *sidecar.Ticket) error {
+	s.m[c14StoreKey(t.ID, t.Offer.SignPubKey)] = c14Clone(t)
+	return nil
+}
+func (s *c14MapStore) UpdateSidecar(t *sidecar.Ticket) error { return s.AddSidecar(t) }
+func (s *c14MapStore) Sidecar(id [8]byte, pk *btcec.PublicKey) (*sidecar.Ticket, error) {
+	if t, ok := s.m[c14StoreKey(id, pk)]; ok {
+		return c14Clone(t), nil
+	}
+	return nil, clientdb.ErrNoSidecar
+}
+func (s *c14MapStore) Sidecars() ([]*sidecar.Ticket, error) { return nil, nil }
+
+// acceptorFlow replays the recipient's history on the real code: the offered
+// ticket is registered through the real SidecarAcceptor.RegisterSidecar (which
+// stores it), the provider signs the order, then ONE field of the ordered
+// ticket is changed and the changed ticket is presented to the real
+// validateOrderedTicket with the database of the registration. Oracle: an
+// accepted ticket carries offer AND order signatures that verify for the ticket
+// as presented, is in the ordered state and was registered.
+func (e *c14Env) acceptorFlow(r *Run, c c14Case) {
+	b := c.Base
+	t := &sidecar.Ticket{Version: sidecar.Version(b.Version), State: sidecar.StateOffered}
+	id, _ := hex.DecodeString(b.ID)
+	copy(t.ID[:], id)
+	t.Offer = sidecar.Offer{
+		Capacity: btcutil.Amount(b.Capacity), PushAmt: btcutil.Amount(b.Push),
+		LeaseDurationBlocks: b.Lease, SignPubKey: e.keys.pub[b.SignKey], Auto: b.Auto,
+		UnannouncedChannel: b.Unannounced, ZeroConfChannel: b.ZeroConf,
+	}
+	loc := keychain.KeyLocator{Family: 220, Index: uint32(b.SignKey)}
+	if sidecar.SignOffer(e.ctx, t, loc, e.signer) != nil {
+		return
+	}
+	store := &c14MapStore{m: map[string]*sidecar.Ticket{}}
+	acc := pool.NewSidecarAcceptor(&pool.SidecarAcceptorConfig{
+		SidecarDB: store, Signer: e.signer, Wallet: test.NewMockWalletKit(),
+		NodePubKey: e.keys.pub[1+b.SignKey%c14NKeys],
+	})
+	reg, err := acc.RegisterSidecar(e.ctx, *t)
+	if err != nil {
+		r.Count("flow/register-failed")
+		return
+	}
+	var nonce [32]byte
+	nb, _ := hex.DecodeString(b.Nonce)
+	copy(nonce[:], nb)
+	if sidecar.SignOrder(e.ctx, reg, nonce, loc, e.signer) != nil {
+		return
+	}
+	e.mutate(reg, c.Mutation, rand.New(rand.NewSource(c.MSeed)))
+	_, lerr := store.Sidecar(reg.ID, reg.Offer.SignPubKey)
+	known := lerr == nil
+	tok := e.tok(reg)
+	res := c14Guard(func() error {
+		return pool.VerifC14ValidateOrderedTicket(e.ctx, c14Clone(reg), e.signer, store)
+	})
+	r.Emit(fmt.Sprintf("C14 validateordered %s %s", tok, c14B(known)), res)
+	r.Count("flow/validateordered/" + res)
+	r.Count("flow/" + c.Mutation + "/" + strings.SplitN(res, ":", 2)[0])
+	violate := func(what string) {
+		r.Count("oracle/violation")
+		r.Violate(what+" (presented ticket "+tok+")",
+			fmt.Sprintf("C14/validate-ordered/%s/v%d", c.Mutation, b.Version), c)
+	}
+	if res == "ok" {
+		var why []string
+		d1, e1 := reg.OfferDigest()
+		if e1 != nil || !c14SigOK(reg.Offer.SignPubKey, d1, reg.Offer.SigOfferDigest) {
+			why = append(why, "the offer signature does not verify for the ticket as presented")
+		}
+		d2, e2 := reg.OrderDigest()
+		if e2 != nil || reg.Order == nil || !c14SigOK(reg.Offer.SignPubKey, d2, reg.Order.SigOrderDigest) {
+			why = append(why, "the order signature does not verify for the ticket as presented")
+		}
+		if reg.State != sidecar.StateOrdered {
+			why = append(why, "ticket not in the ordered state")
+		}
+		if !known {
+			why = append(why, "ticket was never registered")
+		}
+		if len(why) > 0 {
+			violate("validateOrderedTicket accepted a ticket after changing " + c.Mutation + " although " +
+				strings.Join(why, "; "))
+		}
+	} else if c.Mutation == "none" {
+		violate("validateOrderedTicket rejected the unmodified registered and ordered ticket: " + res)
 	}
 }
 
@@ -599,14 +706,18 @@ func (e *c14Env) randTicket(rng *rand.Rand) *sidecar.Ticket {
 
 // c14Store is a sidecar.Store that either knows every ticket or none.
 type c14Store struct {
-	known bool
-	added int
+	known  bool
+	added  int
+	stored *sidecar.Ticket // what a lookup returns (the registered ticket)
 }
 
 func (s *c14Store) AddSidecar(*sidecar.Ticket) error    { s.added++; return nil }
 func (s *c14Store) UpdateSidecar(*sidecar.Ticket) error { return nil }
 func (s *c14Store) Sidecar([8]byte, *btcec.PublicKey) (*sidecar.Ticket, error) {
 	if s.known {
+		if s.stored != nil {
+			return c14Clone(s.stored), nil
+		}
 		return &sidecar.Ticket{}, nil
 	}
 	return nil, clientdb.ErrNoSidecar
@@ -757,7 +868,7 @@ func (e *c14Env) provider(r *Run, rng *rand.Rand) {
 	inTok := e.tok(in)
 	cfg := &order.ManagerConfig{Signer: e.signer}
 	res := c14Guard(func() error {
-		return order.VerifDigestValidateAndSignTicket(e.ctx, cfg, t, bid, acct)
+		return order.VerifC14ValidateAndSignTicket(e.ctx, cfg, t, bid, acct)
 	})
 	out := res + " " + e.tok(t)
 	r.Emit(fmt.Sprintf("C14 provider %s %d %d %d %s %d %d %d %d %s %s", inTok, uint32(auctionType),
@@ -881,7 +992,14 @@ func (e *c14Env) randomOps(r *Run, rng *rand.Rand) {
 		}
 		ctok := e.tok(c)
 		res := c14Guard(func() error {
-			return pool.VerifDigestValidateOrderedTicket(e.ctx, c, e.signer, &c14Store{known: known})
+			// the database holds the ticket as it was registered: same
+			// offer part and signature, no order part yet
+			st := c14Clone(c)
+			st.Order, st.State = nil, sidecar.StateRegistered
+			if rng.Intn(3) == 0 {
+				st = nil
+			}
+			return pool.VerifC14ValidateOrderedTicket(e.ctx, c, e.signer, &c14Store{known: known, stored: st})
 		})
 		r.Emit(fmt.Sprintf("C14 validateordered %s %s", ctok, c14B(known)), res)
 		r.Count("rand/validateordered/" + res)
